@@ -6,7 +6,7 @@
    reachable from the start of process() with t tasks, n source items, concurrency c
    by ANY interleaving of these transitions.  The log is newest-first. *)
 From Coq Require Import List Arith Bool.
-From Wpull Require Import Model.Pipeline Proofs.PipelineBase Proofs.PipelineSafety Proofs.PipelineStop Proofs.PipelineLive.
+From Wpull Require Import Model.Pipeline Proofs.PipelineBase Proofs.PipelineSafety Proofs.PipelineStop Proofs.PipelineLive Proofs.PipelineOnce.
 Import ListNotations.
 
 (* every (start|end, item, task) event is logged at most once *)
@@ -59,6 +59,18 @@ Theorem C13_no_bad_stuck :
 Proof. exact no_bad_stuck. Qed.
 Print Assumptions C13_no_bad_stuck.
 
+(* exactly once unless stopped: if no stop() was requested and process() returned, the producer
+   ended by itself (the source answered None with nothing unfinished) and every item the source
+   yielded (ids 1 .. next_item-1) was started and ended in every task 0..t-1 - with NoDup (log s)
+   above: exactly once *)
+Theorem C13_exactly_once_without_stop :
+  forall t n c ls s,
+    run t (init n c) ls = Some s -> ~ In E_stop ls -> mainpc s = M_returned ->
+    prod s = P_done /\ unfinished s = 0 /\
+    forall i k, 1 <= i < next_item s -> k < t -> In (Start i k) (log s) /\ In (End_ i k) (log s).
+Proof. exact exactly_once. Qed.
+Print Assumptions C13_exactly_once_without_stop.
+
 (* non-vacuity: 2 tasks, 2 items, concurrency 1; stop() arrives while item 1 is in its second
    task and item 2 is queued: item 1 finishes (two events after the stop), item 2 is never
    started, the parked producer is cancelled and process() returns *)
@@ -81,3 +93,15 @@ Example C13_stop_with_parked_producer :
   exists s, run 2 (init 3 1) [L_main; L_prod; E_src_item; L_prod; L_worker 0; E_src_item; L_prod; E_src_item; L_prod; E_stop] = Some s /\
             prod s = P_put_parked 3 false /\ pstate s = St_stopping /\ env_owes s = true.
 Proof. eexists. split; [vm_compute; reflexivity|]. repeat split. Qed.
+
+(* non-vacuity of exactly-once: 2 tasks, 2 items, no stop, process() returns with 8 events *)
+Definition C13_example_run_nostop : list label :=
+  [L_main; L_prod; E_src_item; L_prod; L_worker 0; E_src_item; L_prod; E_task_done 1; L_worker 0; E_task_done 1;
+   L_worker 0; E_task_done 2; L_worker 0; E_task_done 2; L_worker 0; E_src_none; L_prod; L_worker 0; L_main].
+Example C13_nonvacuous_nostop :
+  exists s, run 2 (init 2 1) C13_example_run_nostop = Some s /\ ~ In E_stop C13_example_run_nostop /\
+            mainpc s = M_returned /\ next_item s = 3 /\ length (log s) = 8.
+Proof.
+  eexists. split; [vm_compute; reflexivity|]. split; [|repeat split].
+  cbn. intuition discriminate.
+Qed.
